@@ -50,3 +50,46 @@ func errClassOf(err error) string {
 	}
 	return "other"
 }
+
+func timeDur(ns int64) time.Duration { return time.Duration(ns) }
+
+// streamsSexp canonicalises a streams result like logImpl does.
+func streamsSexp(data lokiapi.QueryResponseData, normNested bool) Sexp {
+	type acc struct {
+		ls map[string]string
+		es []lokiEntry
+	}
+	merged := map[string]*acc{}
+	var order []string
+	for _, s := range data.StreamsResult.Result {
+		ls := map[string]string{}
+		for k, v := range s.Stream.Value {
+			if k != "__error_details__" {
+				ls[k] = v
+			}
+		}
+		key := labelsSexp(ls).String()
+		if _, ok := merged[key]; !ok {
+			merged[key] = &acc{ls: ls}
+			order = append(order, key)
+		}
+		merged[key].es = append(merged[key].es, toEntries(s.Values)...)
+	}
+	var streams []Sexp
+	for _, key := range order {
+		ls, es := merged[key].ls, merged[key].es
+		sort.SliceStable(es, func(i, j int) bool {
+			if es[i].T != es[j].T {
+				return es[i].T < es[j].T
+			}
+			return es[i].V < es[j].V
+		})
+		xs := []Sexp{A("stream"), labelsSexp(ls)}
+		for _, e := range es {
+			xs = append(xs, L(A("e"), N(int64(e.T)), B(e.V)))
+		}
+		streams = append(streams, LS(xs))
+	}
+	sort.Slice(streams, func(i, j int) bool { return streams[i].String() < streams[j].String() })
+	return LS(append([]Sexp{A("ok")}, streams...))
+}
